@@ -17,6 +17,7 @@ THEOREMS = [_P + n for n in [
     "wf_brun", "abs_append", "size_eq_abs", "peek_prefix", "abs_advance", "buffer_refines_fifo",
     "sent_is_concat", "sent_prefix_of_accepted", "drained_all_sent", "future_after_bytes", "futures_in_order",
     "refusal_no_side_effect", "refusal_iff_exceeds", "sendLoop_advance_ok", "indices_meaning",
+    "model_trace_ok", "checker_tracks_model",
 ]]
 TRUSTED = [
     "collections.deque, bytearray (+=, del b[:n]), memoryview slicing/cast as modelled in C12/Model.lean",
@@ -47,6 +48,8 @@ CLAUSES = {
         "refusal_no_side_effect + refusal_iff_exceeds",
     "the internal FIFO buffer (checked exhaustively for small operation sequences)":
         "buffer_refines_fifo (all sequences, unbounded) + wf_brun; tie: exhaustive depth-3/4 enumeration",
+    "the executable oracle (Spec.check, applied by the harness to the real stream) accepts every behaviour of the model":
+        "model_trace_ok + checker_tracks_model (simulation absS between model and checker states, all op sequences / scripts)",
     "bytes or memoryviews of any size": "tie only: memoryview formats/offsets are exercised by the correspondence stream",
 }
 PARALLEL = False      # 3000 cases take ~6 s serially; forking a pool costs more than it saves
